@@ -40,7 +40,7 @@ def plan(tier):
     parts += ["0:12,1:0", "0:12,1:1"] + [f"0:12,1:2,2:{i}" for i in range(8)]
     if tier == "thorough":
         parts = [f"0:{k}" for k in range(14) if k not in nary and k != 12]
-        parts += [f"0:{k},1:{a}" for k in (*nary, 12) for a in range(3)]
+        parts += [f"0:{k},1:{a}" for k in (*nary, 12) for a in range(2)] + [f"0:{k},1:2,2:{j}" for k in (*nary, 12) for j in range(14)]
     # same-constructor pairs (where equality is non-trivial) + every ordered pair of distinct constructors
     pair_parts = [f"0:{a},12:{a}" for a in range(14)]
     return [
